@@ -17,7 +17,7 @@ Contract: every `HopcroftKarp(graph).maximum_matching()` of the real run is reco
       (d) the distance returned with `matching=True` equals the one without (up to rounding for the verdict;
           bit-identity, which the model has, as a correspondence signal).
 """
-import json, math, os, subprocess, sys, warnings
+import json, math, os, signal, subprocess, sys, warnings
 from fractions import Fraction
 import numpy as np
 from .. import common
@@ -170,6 +170,38 @@ def case_args(case):
     return to_array(case["dgm1"], case.get("shape1", 0), r1), to_array(case["dgm2"], case.get("shape2", 0), r2)
 
 
+class Hang(Exception):
+    """the real call did not return within HANG_S seconds (an edit of the bisection can make `while len(ds) >= 1` spin for ever).
+    An Exception on purpose: the call sites record it like any other error kind of the code, and `verdict` then says the
+    property fails on that input (no value was returned)"""
+
+
+HANG_S = 20.0
+HANGS = [0]
+
+
+def _alarm(signum, frame):
+    raise Hang()
+
+
+def guarded(f, *a, **k):
+    """f(*a, **k) under an alarm that repeats every quarter second after HANG_S (an exception raised by a signal handler can be
+    lost where Python ignores exceptions); raises Hang when the call does not return"""
+    old = signal.signal(signal.SIGALRM, _alarm)
+    signal.setitimer(signal.ITIMER_REAL, HANG_S, 0.25)
+    try:
+        try:
+            return f(*a, **k)
+        finally:
+            signal.setitimer(signal.ITIMER_REAL, 0)
+    except Hang:
+        HANGS[0] += 1
+        raise
+    finally:
+        signal.setitimer(signal.ITIMER_REAL, 0)
+        signal.signal(signal.SIGALRM, old)
+
+
 def run_code(case, record=True):
     """-> ('ok', value, warn1, warn2, probes, recorder, anywarn) or ('err', kind, …).  warn1/warn2: the code's own two
     messages were seen (compared with the MODEL's flags only — wording is not part of the property); anywarn: some
@@ -185,8 +217,8 @@ def run_code(case, record=True):
             warnings.simplefilter("always")
             with np.errstate(all="ignore"):
                 try:
-                    v = bmod.bottleneck(a, b)
-                except Exception as e:      # the code's own error kinds are part of the contract
+                    v = guarded(bmod.bottleneck, a, b)
+                except Exception as e:      # the code's own error kinds are part of the contract (Hang: no return at all)
                     return ("err", type(e).__name__, False, False, rec.probes, rec, False)
         msgs = [str(x.message) for x in w]
         w1 = any(m.startswith("dgm1 has points with non-finite death") for m in msgs)
@@ -612,13 +644,13 @@ def small(case):
 # ----------------------------------------------------------------------------- the run
 
 # source translator (DESIGN.md 3.2): part of the model is regenerated from the source text on every run
-TRUSTED = list(TRUSTED) + [py2lean.trusted_note("bottleneck")]
-PROP_FILES = ["PersimVerif/Props/C01.lean"] + py2lean.prop_files("bottleneck")
+TRUSTED = list(TRUSTED) + [py2lean.trusted_note("bottleneck"), py2lean.trusted_note("bottleneck_search")]
+PROP_FILES = ["PersimVerif/Props/C01.lean"] + py2lean.prop_files("bottleneck") + py2lean.prop_files("bottleneck_search")
 
 
 def pre_build(ctx):
     """source translator: regenerate Generated/Src*.lean from PERSIM_ROOT's source"""
-    py2lean.pre_build(ctx, ("bottleneck",))
+    py2lean.pre_build(ctx, ("bottleneck", "bottleneck_search"))
 
 
 
@@ -643,7 +675,7 @@ def default_filter_probe(ctx):
 
 def run(ctx):
     py2lean.report_broken(ctx, PROP_FILES)
-    default_filter_probe(ctx)
+    HANGS[0] = 0
     r = ctx.rng
     ctx.extra["core_theorems"] = CORE_THEOREMS
     cases = [norm_case(c) for c in CORPUS]
@@ -694,6 +726,9 @@ def run(ctx):
             ent["tie_idx"].append((kind, kprobe, len(lines)))
             lines.append(ln)
         plan.append(ent)
+        if HANGS[0] >= 2:                         # the real code does not terminate: two inputs are enough
+            ctx.count("stopped_after_hangs")
+            break
     ctx.extra["line_coverage_first_80_cases"] = cov.summary()
     answers = ask(lines)
 
@@ -796,6 +831,10 @@ def run(ctx):
         if not search_fresh(ctx, deferred[0][0]):
             for _, what, rec_ in deferred:
                 ctx.violation(what, rec_, found_input=False)
+    if HANGS[0]:                                  # the remaining streams call the real code without a guard (fresh interpreters)
+        ctx.count("streams_skipped_after_hang")
+        return
+    default_filter_probe(ctx)
     matching_flag(ctx, plan)
     hash_seeds(ctx, cases)
 
@@ -808,7 +847,7 @@ def run_with_flag(case):
         warnings.simplefilter("ignore")
         with np.errstate(all="ignore"):
             try:
-                return float(bmod.bottleneck(a, b, matching=True)[0])
+                return float(guarded(bmod.bottleneck, a, b, matching=True)[0])
             except Exception as e:
                 return "err:" + type(e).__name__
 
@@ -1037,4 +1076,4 @@ MANIFEST = {
             "equality are compared with the model only (correspondence breaks).",
     "technique": "Lean 4 theorems over a hand-written model (oracle as parameter) + differential correspondence + verified certificate checkers",
 }
-MANIFEST["note"] += " " + py2lean.manifest_note("bottleneck")
+MANIFEST["note"] += " " + py2lean.manifest_note("bottleneck") + " " + py2lean.manifest_note("bottleneck_search")
